@@ -60,7 +60,7 @@ func callsAfter(fn *ssa.Function, from ssa.Instruction, name string) []*ssa.Call
 			return
 		}
 		cal := staticCallee(&call.Call)
-		if cal == nil || cal.Name() != name {
+		if cal == nil || fname(cal) != name {
 			return
 		}
 		if (b == fb && i > idxIn(from)) || (b != fb && reaches(fb, b)) {
@@ -90,7 +90,7 @@ func throughAny(d deepInstr, names ...string) bool {
 	for _, cc := range d.calls {
 		if cal := staticCallee(&cc.Call); cal != nil {
 			for _, n := range names {
-				if cal.Name() == n {
+				if fname(cal) == n {
 					return true
 				}
 			}
@@ -129,9 +129,9 @@ func heapDeep(fn *ssa.Function, prune func(*ssa.Function) bool) (places []heapPl
 			if cal == nil || len(x.Call.Args) < 2 {
 				continue
 			}
-			switch cal.Name() {
+			switch fname(cal) {
 			case "notifyIndexChanged", "percolateUp", "percolateDown":
-				follows = append(follows, heapFollow{d: d, name: cal.Name(), idx: symOf(x.Call.Args[1], env).String()})
+				follows = append(follows, heapFollow{d: d, name: fname(cal), idx: symOf(x.Call.Args[1], env).String()})
 			}
 		}
 	}
@@ -315,7 +315,7 @@ func ruleHeapNotify(c *Ctx, r *R) {
 		if !ok {
 			return
 		}
-		if cal := staticCallee(&call.Call); cal != nil && cal.Name() == "notifyIndexChanged" && rangeOver(call.Call.Args[1], initial) {
+		if cal := staticCallee(&call.Call); cal != nil && fname(cal) == "notifyIndexChanged" && rangeOver(call.Call.Args[1], initial) {
 			// after every percolateDown: no percolateDown reachable from here
 			later := callsAfter(nw, call, "percolateDown")
 			if len(later) == 0 {
@@ -391,7 +391,7 @@ func ruleHeapRestore(c *Ctx, r *R) {
 			if !ok {
 				return
 			}
-			if cal := staticCallee(&call.Call); cal != nil && cal.Name() == "percolateDown" {
+			if cal := staticCallee(&call.Call); cal != nil && fname(cal) == "percolateDown" {
 				if phi, ok := call.Call.Args[1].(*ssa.Phi); ok {
 					start, step := false, false
 					for _, e := range phi.Edges {
@@ -425,7 +425,7 @@ func ruleHeapDirection(c *Ctx, r *R) {
 			return "", "", false
 		}
 		cal := staticCallee(&call.Call)
-		if cal == nil || cal.Name() != "less" || len(call.Call.Args) != 3 {
+		if cal == nil || fname(cal) != "less" || len(call.Call.Args) != 3 {
 			return "", "", false
 		}
 		return path(call.Call.Args[1]), path(call.Call.Args[2]), true
@@ -438,7 +438,7 @@ func ruleHeapDirection(c *Ctx, r *R) {
 			if !ok {
 				return
 			}
-			if cal := staticCallee(&call.Call); cal == nil || cal.Name() != "swap" {
+			if cal := staticCallee(&call.Call); cal == nil || fname(cal) != "swap" {
 				return
 			}
 			n++
@@ -476,7 +476,7 @@ func ruleHeapDirection(c *Ctx, r *R) {
 			if !ok {
 				return
 			}
-			if cal := staticCallee(&call.Call); cal == nil || cal.Name() != "swap" {
+			if cal := staticCallee(&call.Call); cal == nil || fname(cal) != "swap" {
 				return
 			}
 			n++
@@ -485,7 +485,7 @@ func ruleHeapDirection(c *Ctx, r *R) {
 			for _, g := range guardsOf(b) {
 				if v, val := g.boolVal(); val {
 					if lc, ok := v.(*ssa.Call); ok {
-						if cal := staticCallee(&lc.Call); cal != nil && cal.Name() == "less" {
+						if cal := staticCallee(&lc.Call); cal != nil && fname(cal) == "less" {
 							x, y := lc.Call.Args[1], lc.Call.Args[2]
 							// less(child, i): child is the first swap arg, i the loop variable
 							if x == a1 && y == a2 {
@@ -513,7 +513,7 @@ func ruleHeapDirection(c *Ctx, r *R) {
 				for _, g := range append(guardsOf(pred), guardsOfSelf(pred)...) {
 					if v, val := g.boolVal(); val {
 						if lc, ok := v.(*ssa.Call); ok {
-							if cal := staticCallee(&lc.Call); cal != nil && cal.Name() == "less" && strings.Contains(path(lc.Call.Args[1]), "#1") && strings.Contains(path(lc.Call.Args[2]), "#0") {
+							if cal := staticCallee(&lc.Call); cal != nil && fname(cal) == "less" && strings.Contains(path(lc.Call.Args[1]), "#1") && strings.Contains(path(lc.Call.Args[2]), "#0") {
 								okLeast = true
 							}
 						}
@@ -578,7 +578,7 @@ func rulePQMap(c *Ctx, r *R) {
 		var out []*ssa.Call
 		instrs(fn, func(b *ssa.BasicBlock, i int, in ssa.Instruction) {
 			if call, ok := in.(*ssa.Call); ok {
-				if cal := staticCallee(&call.Call); cal != nil && cal.Name() == name {
+				if cal := staticCallee(&call.Call); cal != nil && fname(cal) == name {
 					out = append(out, call)
 				}
 				if bi, ok := call.Call.Value.(*ssa.Builtin); ok && bi.Name() == name {
@@ -702,7 +702,7 @@ func rulePQMap(c *Ctx, r *R) {
 				return
 			}
 			cal := staticCallee(&call.Call)
-			if cal == nil || cal.Name() != "New" || len(call.Call.Args) < 2 {
+			if cal == nil || fname(cal) != "New" || len(call.Call.Args) < 2 {
 				return
 			}
 			for _, a := range call.Call.Args {
@@ -771,7 +771,7 @@ func rulePQInitial(c *Ctx, r *R) {
 	var nw *ssa.Call
 	instrs(fn, func(b *ssa.BasicBlock, i int, in ssa.Instruction) {
 		if call, ok := in.(*ssa.Call); ok {
-			if cal := staticCallee(&call.Call); cal != nil && cal.Name() == "New" && cal.Pkg != nil && strings.HasSuffix(cal.Pkg.Pkg.Path(), "internal/heap") {
+			if cal := staticCallee(&call.Call); cal != nil && fname(cal) == "New" && cal.Pkg != nil && strings.HasSuffix(cal.Pkg.Pkg.Path(), "internal/heap") {
 				nw = call
 			}
 		}
